@@ -715,6 +715,142 @@ def tag_table_read_obligations(repo, chk, rule, why):
            f"the cached tag table of a selector is never subscripted or changed by its readers ({reads} reads): {why}" + (f" -- {bad}" if bad else ""))
 
 
+def count_integrity_obligations(repo, chk, rule, why):
+    """StackedTransforms: the per-capture counts and the probe count change ONLY by the +1 of push and the -1 of pop -- the table is never rebuilt, pruned,
+    cleared or replaced outside __init__ (a rebuilt table that keeps the keys but not the counts lets the second-to-last user's release remove a
+    variable that is still probed)."""
+    import ast
+    from ..core import norm, walk_local
+    bad, n_upd = [], 0
+    for q, fi in sorted(repo.functions.items()):
+        if not q.startswith("transform.") or q.endswith(".__init__"):
+            continue
+        for n in walk_local(fi.node):
+            if isinstance(n, ast.AugAssign) and (norm(n.target).endswith(".instrument_count") or ".captures[" in norm(n.target)):
+                n_upd += 1
+                if not (isinstance(n.value, ast.Constant) and n.value.value == 1 and isinstance(n.op, (ast.Add, ast.Sub))):
+                    bad.append(f"{q}: {norm(n)}")
+            elif isinstance(n, (ast.Assign, ast.AugAssign, ast.Delete)):
+                tgts = n.targets if isinstance(n, (ast.Assign, ast.Delete)) else [n.target]
+                for t in tgts:
+                    tt = norm(t)
+                    if tt.endswith(".captures") or tt.endswith(".instrument_count") or (".captures[" in tt and not isinstance(n, ast.AugAssign)):
+                        bad.append(f"{q}: {norm(n)[:70]}")
+            elif isinstance(n, ast.Call) and isinstance(n.func, ast.Attribute) and norm(n.func.value).endswith(".captures") \
+                    and n.func.attr in ("clear", "pop", "popitem", "update", "subtract", "setdefault", "__delitem__", "__setitem__"):
+                bad.append(f"{q}: {norm(n)[:70]}")
+    chk.ob(rule, "transform.StackedTransforms:counts-change-only-by-one", n_upd >= 4 and not bad, "ptera/transform.py (StackedTransforms)",
+           f"outside __init__ the instrumentation counts are only ever incremented / decremented by one ({n_upd} updates): {why}" + (f" -- {bad}" if bad else ""))
+
+
+def close_order_obligations(repo, chk, rule, why):
+    """Interactor.exit closes the registered accumulators by iterating over to_close front to back (registration order = activation order of the probes)."""
+    import ast
+    from ..astq import is_name
+    from ..core import norm, walk_local
+    ie = repo.func("interpret.Interactor.exit")
+    loops = [n for n in walk_local(ie.node) if isinstance(n, ast.For) and norm(n.iter) == "self.to_close"]
+    ok = len(loops) == 1 and any(isinstance(c, ast.Call) and isinstance(c.func, ast.Attribute) and c.func.attr == "close" and is_name(c.func.value, loops[0].target.id)
+                                 for c in ast.walk(loops[0])) and not any(isinstance(n, ast.While) for n in walk_local(ie.node))
+    chk.ob(rule, "interpret.Interactor.exit:closes-in-registration-order", ok, ie.where,
+           f"exit() walks to_close from the first registered accumulator to the last (no pop from the end, no reversal): {why}")
+
+
+def unwrap_obligations(repo, chk, rule, why):
+    """selector._dig follows every __wrapped__ link (whatever kind of object the link holds) until it reaches a tooled function or the innermost object."""
+    import ast
+    from ..astq import conds, facts_of, literals
+    from ..core import walk_local
+    dg = repo.func("selector._dig")
+    loops = [n for n in walk_local(dg.node) if isinstance(n, ast.While)]
+    fdg = facts_of(dg)
+    steps = fdg.find("fn = fn.__wrapped__")
+    ok = len(loops) == 1 and len(steps) == 1 and sorted(literals(loops[0].test, True)) == sorted(["hasattr(fn, '__wrapped__')", "not is_tooled(fn)"]) and fdg.loops(steps[0]) \
+        and sorted(conds(steps[0], dg.node)) == sorted(literals(loops[0].test, True))
+    chk.ob(rule, "selector._dig:follows-__wrapped__", ok, dg.where, f"follows __wrapped__ until a tooled function (or the innermost object): {why}")
+
+
+def token_only_restore_obligations(repo, chk, rule, why):
+    """proceed.__exit__ puts the caller's collection back only by resetting the token it took at entry: it never `set()`s the variable (a collection remembered
+    from another context would be installed where the activation is being finished)."""
+    import ast
+    from ..core import norm, walk_local
+    ex = repo.func("overlay.proceed.__exit__")
+    sets = [norm(n)[:60] for n in walk_local(ex.node) if isinstance(n, ast.Call) and isinstance(n.func, ast.Attribute) and n.func.attr == "set" and norm(n.func.value).endswith(".current")]
+    resets = [n for n in walk_local(ex.node) if isinstance(n, ast.Call) and isinstance(n.func, ast.Attribute) and n.func.attr == "reset" and norm(n.func.value).endswith(".current")]
+    chk.ob(rule, "overlay.proceed.__exit__:restores-only-through-its-token", len(resets) == 1 and not sets, ex.where,
+           f"the handler variable is restored by reset(token) alone: {why}" + (f" -- also {sets}" if sets else ""))
+
+
+def value_once_obligations(repo, chk, rule, why, H=None):
+    """The value slot of every binding statement occurs exactly once in its rewritten form (instrumented or not): the bound value is evaluated once and is what every
+    interaction of that statement reports."""
+    from ..xform import query as Q
+    from ..xform.terms import Raise
+    from .c04 import VALUE_HANDLERS
+    if H is None:
+        cls, H, stats = Q.templates(repo, chk.tier)
+    for hname, field in VALUE_HANDLERS.items():
+        worst = 1
+        n_paths = 0
+        for p in H.get(hname, []):
+            if isinstance(p.template, Raise) or dict(p.decisions).get(f"present|node.{field}") is False:
+                continue
+            n_paths += 1
+            n = Q.count_slot(p.template, lambda s_: s_.path == f"node.{field}")
+            if n != 1:
+                worst = n
+        chk.ob(rule, f"{hname}:{field}:evaluated-once-on-every-path", worst == 1 and n_paths > 0, f"ptera/transform.py ({hname})",
+               f"the right-hand side of {hname[6:]} occurs once in every rewritten form ({n_paths} paths): {why}" + ("" if worst == 1 else f" -- {worst} times on some path"))
+
+
+def parse_is_stateless_obligations(repo, chk, rule, why):
+    """selector.py keeps no module-level table that functions write to at run time, apart from the intern table of the metaclass (a class attribute): what
+    `parse` / `select` answer depends on their argument alone, never on what was compiled earlier in the process."""
+    import ast
+    from ..core import norm, walk_local
+    tree = repo.module("selector").tree
+    tables = {t.id for st in tree.body if isinstance(st, ast.Assign) for t in st.targets if isinstance(t, ast.Name)
+              and (isinstance(st.value, (ast.Dict, ast.List, ast.Set)) and not (st.value.keys if isinstance(st.value, ast.Dict) else st.value.elts)
+                   or isinstance(st.value, ast.Call) and norm(st.value.func) in ("dict", "list", "set", "defaultdict", "collections.defaultdict", "OrderedDict", "WeakValueDictionary", "weakref.WeakValueDictionary"))}
+    written = []
+    for q, fi in sorted(repo.functions.items()):
+        if not q.startswith("selector."):
+            continue
+        for n in walk_local(fi.node):
+            if isinstance(n, (ast.Assign, ast.AugAssign)):
+                for t in (n.targets if isinstance(n, ast.Assign) else [n.target]):
+                    for x in ast.walk(t):
+                        if isinstance(x, ast.Subscript) and isinstance(x.value, ast.Name) and x.value.id in tables:
+                            written.append(f"{q}: {norm(n)[:50]}")
+            elif isinstance(n, ast.Call) and isinstance(n.func, ast.Attribute) and isinstance(n.func.value, ast.Name) and n.func.value.id in tables \
+                    and n.func.attr in ("append", "add", "update", "setdefault", "extend", "insert", "pop", "clear"):
+                written.append(f"{q}: {norm(n)[:50]}")
+            elif isinstance(n, ast.Global) and set(n.names) & tables:
+                written.append(f"{q}: global {sorted(set(n.names) & tables)}")
+    chk.ob(rule, "selector:no-module-level-memo-written-at-run-time", not written, "ptera/selector.py",
+           f"no module-level container of selector.py is filled by its functions ({sorted(tables) or 'none defined'}): {why}" + (f" -- {written}" if written else ""))
+
+
+def push_under_lock_obligations(repo, chk, rule, why):
+    """overlay._tooler / _untooler change the stack of a function (counts, variant, code swap) inside `with _tooling_lock:`."""
+    import ast
+    from ..core import norm, walk_local
+    for q, meth in (("overlay._tooler", "push"), ("overlay._untooler", "pop")):
+        fi = repo.func(q)
+        calls = [n for n in walk_local(fi.node) if isinstance(n, ast.Call) and isinstance(n.func, ast.Attribute) and n.func.attr == meth]
+
+        def locked(n):
+            cur = getattr(n, "_parent", None)
+            while cur is not None and cur is not fi.node:
+                if isinstance(cur, ast.With) and any("lock" in norm(it.context_expr).lower() for it in cur.items):
+                    return True
+                cur = getattr(cur, "_parent", None)
+            return False
+        chk.ob(rule, f"{q}:{meth}-under-the-tooling-lock", len(calls) == 1 and all(locked(c) for c in calls), fi.where,
+               f"`{meth}` (count update, variant selection, code swap) runs inside the lock that serialises instrumentation changes: {why}")
+
+
 def fit_memo_obligations(repo, chk, rule, why):
     """HandlerCollection.proceed: whether a function fits a selector level is remembered under the key (function object, selector) -- not under
     its name, its id() (recycled once the function is collected) or anything else several functions can share."""
